@@ -48,9 +48,14 @@ def _parseDEC(x):
 _xmask = {2: 1 << 9, 8: 1 << 29, 16: 1 << 39}
 
 
+_xdigits = {2: '01', 8: '01234567', 16: '0123456789ABCDEF'}
+
+
 def _x2dec(x, base=16):
     if isinstance(x, XlError):
         return x
+    if not str(x) or set(str(x).upper()) - set(_xdigits[base]):
+        return Error.errors['#NUM!']  # Signs, prefixes, blanks, `_`.
     try:
         x, y = int(x, base), _xmask[base]
         return (x & ~y) - (y & x)
